@@ -284,6 +284,14 @@ def register(chk, maxl=None):
                                 c14.ob_adjust_nondelegable, l, pattern, fs, ts, True, fo, to_)
 
 
+def include_in(chk):
+    """this check's obligations registered inside another check (framework.Check.include): every call runs on objects of exactly the documented size,
+    so they are memory-safety obligations for valid calls as well"""
+    wkd.prog()
+    chk.replayer = replay_step
+    register(chk)
+
+
 def main(argv=None):
     chk = Check("C11", "proof", argv)
     chk.replayer = replay_step
